@@ -84,8 +84,9 @@ fn part_stm(ctx: &Ctx, rep: &mut Report) {
     merge_rev(rep, par_map(&jobs, threads, |_, &(n, index)| stm::brute_force_single_claim(n, index)));
     // beyond the exhaustive bound: fixed larger sizes with a fixed selection of index subsets
     let large = large_sizes(ctx);
-    merge_rev(rep, par_map(&large, threads, |_, &n| stm::large_size_sweep(n, n <= 40)));
-    rep.extra("stm_larger_sizes_with_selected_subsets", json!(large));
+    let mutate_up_to = ctx.tier.pick(40usize, 129usize);
+    merge_rev(rep, par_map(&large, threads, |_, &n| stm::large_size_sweep(n, n <= mutate_up_to)));
+    rep.extra("stm_larger_sizes_with_selected_subsets", json!({"sizes": large, "single_mutations_of_one_and_two_leaf_proofs_up_to_n": mutate_up_to}));
     rep.extra(
         "stm_bounds",
         json!({
@@ -125,8 +126,9 @@ fn part_mk(ctx: &Ctx, rep: &mut Report) {
     let sizes: Vec<usize> = (1..=n_single).rev().collect();
     merge_rev(rep, par_map(&sizes, threads, |_, &n| mk::cross_root_sweep(n)));
     let large = large_sizes(ctx);
-    merge_rev(rep, par_map(&large, threads, |_, &n| mk::large_size_sweep(n, n <= 40)));
-    rep.extra("mkproof_larger_sizes_with_selected_subsets", json!(large));
+    let mutate_up_to = ctx.tier.pick(20usize, 40usize);
+    merge_rev(rep, par_map(&large, threads, |_, &n| mk::large_size_sweep(n, n <= mutate_up_to)));
+    rep.extra("mkproof_larger_sizes_with_selected_subsets", json!({"sizes": large, "single_mutations_of_one_and_two_leaf_proofs_up_to_n": mutate_up_to}));
     rep.extra(
         "mkproof_bounds",
         json!({
